@@ -196,34 +196,34 @@ STAGES = {
                           grid=lambda tier: [[1], [2], [3], [4]], kind="par"),
   "thub.expr": stage(lambda p: "(GPar 3)", _thub_expr, kind="par"),
   # ---- several sources, one read on each per output -------------------------------------------
-  "Stream.add_stream": stage(lambda p: "(GZip [0; 1])", lambda al, lit, s, p: al.Stream(s[0]) + al.Stream(s[1]),
+  "Stream.add_stream": stage(lambda p: "(GZip %s)" % nl([0, 1]), lambda al, lit, s, p: al.Stream(s[0]) + al.Stream(s[1]),
                              nsrc=2, first=True, kind="zip"),
-  "Stream.radd_stream": stage(lambda p: "(GZip [0; 1])", lambda al, lit, s, p: al.Stream(s[1]).__radd__(s[0]),
+  "Stream.radd_stream": stage(lambda p: "(GZip %s)" % nl([0, 1]), lambda al, lit, s, p: al.Stream(s[1]).__radd__(s[0]),
                               nsrc=2, first=True, kind="zip"),
-  "it.izip": stage(lambda p: "(GZip [0; 1])", lambda al, lit, s, p: lit.izip(s[0], s[1]), nsrc=2, first=True, kind="zip"),
-  "it.izip3": stage(lambda p: "(GZip [0; 1; 2])", lambda al, lit, s, p: lit.izip(s[0], s[1], s[2]), nsrc=3, first=True, kind="zip"),
-  "it.imap2": stage(lambda p: "(GZip [0; 1])", lambda al, lit, s, p: lit.imap(lambda a, b: a + b, s[0], s[1]),
+  "it.izip": stage(lambda p: "(GZip %s)" % nl([0, 1]), lambda al, lit, s, p: lit.izip(s[0], s[1]), nsrc=2, first=True, kind="zip"),
+  "it.izip3": stage(lambda p: "(GZip %s)" % nl([0, 1, 2]), lambda al, lit, s, p: lit.izip(s[0], s[1], s[2]), nsrc=3, first=True, kind="zip"),
+  "it.imap2": stage(lambda p: "(GZip %s)" % nl([0, 1]), lambda al, lit, s, p: lit.imap(lambda a, b: a + b, s[0], s[1]),
                     nsrc=2, first=True, kind="zip"),
-  "filter.timevar_num": stage(lambda p: "(GZip [0; 1])", lambda al, lit, s, p: (1 + al.Stream(s[1]) * Z(al) ** -1)(s[0]),
+  "filter.timevar_num": stage(lambda p: "(GZip %s)" % nl([0, 1]), lambda al, lit, s, p: (1 + al.Stream(s[1]) * Z(al) ** -1)(s[0]),
                               nsrc=2, first=True, kind="zip"),
-  "filter.timevar_den": stage(lambda p: "(GZip [0; 1])", lambda al, lit, s, p: (1 / (1 + al.Stream(s[1]) * Z(al) ** -1))(s[0]),
+  "filter.timevar_den": stage(lambda p: "(GZip %s)" % nl([0, 1]), lambda al, lit, s, p: (1 / (1 + al.Stream(s[1]) * Z(al) ** -1))(s[0]),
                               nsrc=2, first=True, kind="zip"),
-  "filter.timevar_both": stage(lambda p: "(GZip [0; 1; 2])",
+  "filter.timevar_both": stage(lambda p: "(GZip %s)" % nl([0, 1, 2]),
                                lambda al, lit, s, p: ((al.Stream(s[1]) * Z(al) ** -1) / (1 + al.Stream(s[2]) * Z(al) ** -1))(s[0]),
                                nsrc=3, first=True, kind="zip"),
-  "modulo_counter.start_step": stage(lambda p: "(GZip [0; 1])", lambda al, lit, s, p: al.modulo_counter(s[0], 7., s[1]),
+  "modulo_counter.start_step": stage(lambda p: "(GZip %s)" % nl([0, 1]), lambda al, lit, s, p: al.modulo_counter(s[0], 7., s[1]),
                                      nsrc=2, first=True, kind="zip"),
-  "modulo_counter.all": stage(lambda p: "(GZip [0; 1; 2])",
+  "modulo_counter.all": stage(lambda p: "(GZip %s)" % nl([0, 1, 2]),
                               lambda al, lit, s, p: al.modulo_counter(s[0], al.Stream(s[1]) + 1, s[2]),
                               nsrc=3, first=True, kind="zip"),
-  "sinusoid.both": stage(lambda p: "(GZip [1; 0])", lambda al, lit, s, p: al.sinusoid(s[0], s[1]), nsrc=2, first=True, kind="zip"),
-  "TableLookup.both": stage(lambda p: "(GZip [1; 0])", lambda al, lit, s, p: al.sin_table(al.Stream(s[0]), al.Stream(s[1])),
+  "sinusoid.both": stage(lambda p: "(GZip %s)" % nl([1, 0]), lambda al, lit, s, p: al.sinusoid(s[0], s[1]), nsrc=2, first=True, kind="zip"),
+  "TableLookup.both": stage(lambda p: "(GZip %s)" % nl([1, 0]), lambda al, lit, s, p: al.sin_table(al.Stream(s[0]), al.Stream(s[1])),
                             nsrc=2, first=True, kind="zip"),
   # ---- chains of sources -----------------------------------------------------------------------
-  "Stream.chain": stage(lambda p: "(GChain [0; 1])", lambda al, lit, s, p: al.Stream(s[0], s[1]), nsrc=2, first=True, kind="chain"),
-  "Stream.append": stage(lambda p: "(GChain [0; 1])", lambda al, lit, s, p: al.Stream(s[0]).append(s[1]), nsrc=2, first=True, kind="chain"),
-  "it.chain": stage(lambda p: "(GChain [0; 1; 2])", lambda al, lit, s, p: lit.chain(s[0], s[1], s[2]), nsrc=3, first=True, kind="chain"),
-  "it.chain.star": stage(lambda p: "(GChain [0; 1])", lambda al, lit, s, p: lit.chain.star([s[0], s[1]]), nsrc=2, first=True, kind="chain"),
+  "Stream.chain": stage(lambda p: "(GChain %s)" % nl([0, 1]), lambda al, lit, s, p: al.Stream(s[0], s[1]), nsrc=2, first=True, kind="chain"),
+  "Stream.append": stage(lambda p: "(GChain %s)" % nl([0, 1]), lambda al, lit, s, p: al.Stream(s[0]).append(s[1]), nsrc=2, first=True, kind="chain"),
+  "it.chain": stage(lambda p: "(GChain %s)" % nl([0, 1, 2]), lambda al, lit, s, p: lit.chain(s[0], s[1], s[2]), nsrc=3, first=True, kind="chain"),
+  "it.chain.star": stage(lambda p: "(GChain %s)" % nl([0, 1]), lambda al, lit, s, p: lit.chain.star([s[0], s[1]]), nsrc=2, first=True, kind="chain"),
   # ---- data dependent / counting stages ----------------------------------------------------------
   "Stream.filter": stage(lambda p: "(GFilter %s %s)" % (L.nat(p[0]), L.nat(p[1])),
                          lambda al, lit, s, p: al.Stream(s[0]).filter(lambda x: x % p[0] == p[1]), first=True, grid=MODS, kind="filter"),
@@ -346,7 +346,7 @@ def prim_need(d, i, k):
   if kind in ("mealy", "par"):
     return k if i == 0 else 0
   if kind == "zip" or kind == "chain":
-    return k if ("%d" % i) in p else 0
+    return k if ("%d%%nat" % i) in p else 0
   if kind == "filter":
     return p[1] + (k - 1) * p[0] + 1 if i == 0 else 0
   if kind == "skip":
@@ -481,6 +481,8 @@ def known(c, o):
 def source_sets(case, tier, kmax):
   """Source configurations for one (pipeline, k): endless, every finite length, tripwires."""
   n = STAGES[case["first"][0]]["nsrc"]
+  if kmax == 0:   # construction only: endless sources, and tripwires that raise on the very first read
+    return [([["inf", 0]] * n, "src:endless"), ([["trip", 0]] * n, "src:tripwire")]
   res = []
   res.append(([["inf", 0]] * n, "src:endless"))
   for ln in range(0, 9):
@@ -505,7 +507,7 @@ def cases_for(first, rest, tier, rng, ks, tags, full=True):
   base = {"first": first, "rest": rest}
   for k in ks:
     sets = source_sets(base, tier, k)
-    if not full:
+    if not full and k > 0:
       pick = [sets[0], sets[1 + rng.randrange(0, len(sets) - 3)], sets[-2] if sets[-2][1].startswith("src:trip") else sets[-1], sets[-1]]
       sets = pick
     for srcs, stag in sets:
